@@ -2,7 +2,7 @@
   C17 — instantiating constants.
 
   Model (literal transcription, core Lean only) of
-    * `TTCFG.instantiate_constants`            synth/syntax/grammars/ttcfg.py:368-385
+    * `TTCFG.instantiate_constants`            synth/syntax/grammars/ttcfg.py:372-389
     * `UCFG.instantiate_constants`             synth/syntax/grammars/u_cfg.py:198-213
     * `ProbDetGrammar.instantiate_constants`   synth/syntax/grammars/tagged_det_grammar.py:219-234
     * `TaggedDetGrammar.instantiate_constants` synth/syntax/grammars/tagged_det_grammar.py:102-115
